@@ -158,6 +158,13 @@ impl<K: Send + Sync + 'static> FeatureState for WorkBalanceState<K> {
     }
 
     fn accept_solution_state(&self, solution_ctx: &mut SolutionContext) {
+        // NOTE: a job removal doesn't go through accept_insertion, so the value of a modified route is refreshed here
+        solution_ctx
+            .routes
+            .iter_mut()
+            .filter(|route_ctx| route_ctx.is_stale())
+            .for_each(|route_ctx| self.accept_route_state(route_ctx));
+
         let value = (self.solution_estimate_fn)(solution_ctx);
 
         solution_ctx.state.set_value::<K, _>(value);
